@@ -88,7 +88,16 @@ pub fn gen_graph(rng: &mut Rng, p: &GraphParams) -> GenGraph {
             } else {
                 Some(*rng.pick(&shard_pool))
             };
-            let n = fresh_node(rng, shard);
+            // local ids are only unique per instance: let later instances reuse ids that
+            // also exist in an earlier one (same NodeId under a different WarpId)
+            let reuse: Option<NodeId> = if i > 0 && rng.chance(1, 3) {
+                let prev_w = warps[rng.below_usize(warps.len())];
+                let cands: Vec<NodeId> = st.nodes.keys().filter(|k| k.0 == prev_w && !nodes.contains(&k.1)).map(|k| k.1).collect();
+                if cands.is_empty() { None } else { Some(*rng.pick(&cands)) }
+            } else {
+                None
+            };
+            let n = reuse.unwrap_or_else(|| fresh_node(rng, shard));
             st.nodes.insert((w, n), *rng.pick(&node_types()));
             nodes.push(n);
         }
@@ -181,11 +190,16 @@ pub struct ProgParams {
     pub max_writes: usize,
     /// Let programs declare boundary ports from a pool of three per instance.
     pub ports: bool,
+    /// Let programs delete and recreate an edge under the same id in one rewrite
+    /// (`Mop::RecreateEdge`). Such rewrites emit more ops than the minimal state diff, which
+    /// the repository's `delta_validate` development assertion rejects by design - the
+    /// `dv` lane skips cases that contain one.
+    pub allow_recreate: bool,
 }
 
 impl Default for ProgParams {
     fn default() -> Self {
-        Self { pool: 6, allow_delete_node: true, allow_portal: true, allow_reparent: true, max_writes: 2, ports: true }
+        Self { pool: 6, allow_delete_node: true, allow_portal: true, allow_reparent: true, max_writes: 2, ports: true, allow_recreate: true }
     }
 }
 
@@ -241,7 +255,7 @@ pub fn gen_program(
     let mut written = 0;
     while written < n_writes && attempts < 40 {
         attempts += 1;
-        let kind = if slot == SYS_SLOT && pp.allow_portal && rng.chance(2, 3) { 100 } else { rng.below(12) };
+        let kind = if slot == SYS_SLOT && pp.allow_portal && rng.chance(2, 3) { 100 } else { rng.below(13) };
         match kind {
             0 | 1 => {
                 let n = *rng.pick(&nodes);
@@ -367,6 +381,47 @@ pub fn gen_program(
                 w_eatt.insert(e);
                 bucket_nodes.insert(f);
                 ops.push(Mop::DeleteEdge { edge: e, from: f });
+            }
+            11 | 12 if !edges.is_empty() && pp.allow_reparent && pp.allow_recreate => {
+                // delete-then-recreate under the same id: move an edge to another source
+                // (and/or target); sometimes delete the old source node in the same rewrite
+                let e = *rng.pick(&edges);
+                if is_portal_owner_edge(st, w, e) || w_edges.contains(&e) || w_eatt.contains(&e) {
+                    continue;
+                }
+                let (f, t, _) = st.edges[&(w, e)];
+                let nf = *rng.pick(&nodes);
+                let nt_ = if rng.chance(1, 3) { *rng.pick(&nodes) } else { t };
+                if deleted_nodes.contains(&f) || deleted_nodes.contains(&t) || deleted_nodes.contains(&nf) || deleted_nodes.contains(&nt_)
+                    || !st.nodes.contains_key(&(w, nf)) || !st.nodes.contains_key(&(w, nt_)) || bucket_nodes.contains(&f) || bucket_nodes.contains(&nf)
+                {
+                    continue;
+                }
+                let mut delete_old_from = None;
+                if pp.allow_delete_node && nf != f && nt_ != f && rng.chance(1, 2) && Some(f) != inst_root && !is_portal_owner_node(st, w, f) && !w_nodes.contains(&f) && !w_natt.contains(&f) {
+                    let inc: Vec<(EdgeId, NodeId, NodeId)> = st.incident_edges(w, f).into_iter().filter(|(e2, _, _)| *e2 != e).collect();
+                    let blocked = inc.iter().any(|(e2, f2, t2)| {
+                        is_portal_owner_edge(st, w, *e2) || w_edges.contains(e2) || w_eatt.contains(e2) || bucket_nodes.contains(f2) || deleted_nodes.contains(f2) || deleted_nodes.contains(t2) || *f2 == nf || *t2 == nf
+                    });
+                    if !blocked {
+                        for (e2, f2, _) in &inc {
+                            w_edges.insert(*e2);
+                            w_eatt.insert(*e2);
+                            bucket_nodes.insert(*f2);
+                        }
+                        w_nodes.insert(f);
+                        w_natt.insert(f);
+                        deleted_nodes.insert(f);
+                        delete_old_from = Some(inc.iter().map(|(e2, f2, _)| (*e2, *f2)).collect::<Vec<_>>());
+                    }
+                }
+                w_edges.insert(e);
+                w_eatt.insert(e);
+                bucket_nodes.insert(f);
+                bucket_nodes.insert(nf);
+                let et = edge_types();
+                ops.push(Mop::ReadNode(nt_));
+                ops.push(Mop::RecreateEdge { edge: e, old_from: f, new_from: nf, to: nt_, tys: [*rng.pick(&et), *rng.pick(&et)], restore_att: rng.chance(2, 3), delete_old_from });
             }
             100 => {
                 // open a portal on a node or edge that has no Descend attachment yet
